@@ -1,4 +1,5 @@
 """C19 - private key material never leaks into public outputs or diagnostics."""
+import re
 import formula as F
 import common
 from interp import core, places, calls_of, roots, Interp, CallV, PhiV, StructV, Via, MutV, Const, Def
@@ -26,6 +27,25 @@ ALLOWED_CONSUMERS = (
     "key_pair::KeyPair::from_", "<key_pair::KeyPair as std::convert::TryFrom", "::_err", "std::result::Result::map_err", "std::result::Result::or", "std::ops::Deref::deref",
     "<indirect:", "std::ops::FnOnce::call_once", "::clone", "::borrow", "Ok", "Err",
 )
+
+
+RENDERING = ("std::fmt", "core::fmt", "alloc::fmt", "ToString", "::to_string", "std::io", "std::fs", "std::process", "std::env", "std::thread", "std::net",
+             "std::sync::mpsc", "panicking", "std::panic", "core::panic", "format", "print", "std::any", "std::error")
+_RENDER_LAST = re.compile(r"::(unwrap|expect|unwrap_err|expect_err|unwrap_unchecked)$")
+
+
+def std_non_rendering(callee, crate):
+    """A foreign callee that lives entirely in std / core / alloc (every path in its resolved name, including the
+    generic arguments of an impl, starts with one of them or with a module of the analysed crate) and is not a
+    formatting, I/O, process, panic or unwrapping entry point.  Such combinators (Result::ok, Option::map, slice and
+    iterator adaptors, ...) only move the value; whatever they return is still tracked as key material."""
+    if callee in crate.bodies:
+        return False
+    if any(x in callee for x in RENDERING) or _RENDER_LAST.search(callee):
+        return False
+    local = {k.lstrip("<").split("::")[0] for k in crate.bodies}
+    firsts = set(re.findall(r"(?<![\w:])([A-Za-z_]\w*)::", callee))
+    return bool(firsts) and all(f in ("std", "core", "alloc") or f in local for f in firsts)
 
 
 def run(ctx):
@@ -123,7 +143,8 @@ def taint(cfg, crate, rep):
             if not hit:
                 continue
             n_calls += 1
-            ok = any(x in callee for x in ALLOWED_CONSUMERS) or callee in crate.bodies and callee.startswith(("key_pair::KeyPair::from_", "ring_like::")) or callee in I.inlined
+            ok = any(x in callee for x in ALLOWED_CONSUMERS) or callee in crate.bodies and callee.startswith(("key_pair::KeyPair::from_", "ring_like::")) or callee in I.inlined \
+                or std_non_rendering(callee, crate)
             rep.ob("C19.taint", "%s|%s|%s" % (cfg, fn, callee), ok, "key material (loader input) is handed to a function that is not a parser / conversion / copy: it could end up in an error, log or rendering", found=callee, sp=node.get("sp"))
         # error values built in the loader must not carry the input
         for sv, node, f, c in I.structs:
